@@ -113,21 +113,18 @@ theorem stats_at_tree_exact (c : Cfg) (okg : GeomOk c.geom) (m : Mem) (inv : Low
       st.freeFrames = m.freeInTree c.geom i) := statsAt_tree_spec okg m inv i hi
 
 /-- **Fast = exact − hidden, per tree**: in every reachable state (between calls) the counter of
-    a tree plus the counters of the reservations on it is exactly the number of free frames of
-    the tree unless frames of the tree are hidden by `Offline`, and never more. -/
-theorem fast_counters_exact (c : Cfg) (H : Nat → Prop) (m : Mem) (inv : UpperInv0 c H m) (i : Nat) (t : Tree)
+    a tree plus the counters of the reservations on it plus the frames hidden by `Offline`
+    (`H i`) is exactly the number of free frames of the tree. -/
+theorem fast_counters_exact (c : Cfg) (H : Nat → Nat) (m : Mem) (inv : UpperInv0 c H m) (i : Nat) (t : Tree)
     (ht : m.trees[i]? = some t) :
-    t.free + m.slotFree c.geom.treeRows i ≤ m.freeInTree c.geom i ∧
-    (¬ H i → t.free + m.slotFree c.geom.treeRows i = m.freeInTree c.geom i) := by
-  have h1 := inv.counterLe i t ht
-  refine ⟨by omega, fun hn => ?_⟩
-  have h2 := inv.counterEq i t ht hn
+    t.free + m.slotFree c.geom.treeRows i + H i = m.freeInTree c.geom i := by
+  have h1 := inv.counter i t ht
   omega
 
 /-- the fast view as a program: `tree_stats()` returns the sum of the tree counters plus the
     counters of the present local reservations (each of which `fast_counters_exact` relates to
     the allocation state tree by tree), without panic and without writing -/
-theorem tree_stats_total (c : Cfg) (H : Nat → Prop) (ok : CfgOk c) (m : Mem) (inv : UpperInv0 c H m) :
+theorem tree_stats_total (c : Cfg) (H : Nat → Nat) (ok : CfgOk c) (m : Mem) (inv : UpperInv0 c H m) :
     Runs m (treeStats c) (fun s m' => m = m' ∧
       ∃ s0, runSolo (Trees.stats c) m = (m, .ok s0) ∧ s.freeFrames = s0.freeFrames + slotSum c m) :=
   (treeStats_spec c m ok inv).mono (fun _ _ h => ⟨h.1, h.2.2.2⟩)
